@@ -1,13 +1,17 @@
 open BinNums
 open Datatypes
 open Drv
+(* a chunk token may carry a mode letter (S = io.WriteString, R = io.Copy): the same operation for the model *)
+let chunk_of_tok c =
+  if String.length c > 0 && (c.[0] = 'S' || c.[0] = 'R') then bytes_of_hex (String.sub c 1 (String.length c - 1))
+  else bytes_of_hex c
 (* ---- C20 ---- indent <prefix> (<chunk> <acc>)*   acc = ok | integer *)
 let do_indent toks =
   match toks with
   | p :: rest ->
     let prefix = bytes_of_hex p in
     let rec calls = function
-      | c :: a :: r -> (bytes_of_hex c, (if a = "ok" then None else Some (z_of_string a))) :: calls r
+      | c :: a :: r -> (chunk_of_tok c, (if a = "ok" then None else Some (z_of_string a))) :: calls r
       | _ -> [] in
     let (rs, out) = Indent.run prefix (Indent.coq_NewWriter prefix) (calls rest) in
     let rs = Str_.concat "," (L.map (fun (n, e) -> string_of_z n ^ ":" ^ (if e then "E" else "ok")) rs) in
@@ -27,8 +31,8 @@ let do_indent2 toks =
     let p1 = bytes_of_hex p1 and p2 = bytes_of_hex p2 in
     let acc a = if a = "ok" then None else Some (z_of_string a) in
     let rec ops = function
-      | "L" :: c :: a :: r -> Indent.OLower (bytes_of_hex c, acc a) :: ops r
-      | "U" :: c :: a :: r -> Indent.OUpper (bytes_of_hex c, acc a) :: ops r
+      | "L" :: c :: a :: r -> Indent.OLower (chunk_of_tok c, acc a) :: ops r
+      | "U" :: c :: a :: r -> Indent.OUpper (chunk_of_tok c, acc a) :: ops r
       | "N" :: r -> Indent.ONew :: ops r
       | _ -> [] in
     let (rs, out) = Indent.run2 p1 p2 (Indent.coq_NewWriter p1) (Indent.coq_NewWriter p2) (ops rest) in
